@@ -26,7 +26,10 @@ def extract_border_cycle(mesh : SurfaceMesh, starting_point : int = None):
         raise Exception("Starting point (vertex {}) is not on mesh border".format(starting_point))
 
     vborder, eborder = [starting_point], []
-    point1, point2 = starting_point, mesh.connectivity.vertex_to_vertices(starting_point)[0]
+    # walk along border *edges*: a neighbour that merely is a border vertex may be reached through an interior edge (a chord), and
+    # only sorted neighbourhoods (config.sort_neighborhoods) happen to list the border predecessor first
+    point1 = starting_point
+    point2 = next(v for v in mesh.connectivity.vertex_to_vertices(starting_point) if mesh.is_edge_on_border(starting_point, v))
     nvisited = 0
     MAX_VISITED = len(mesh.vertices)
         
@@ -35,7 +38,7 @@ def extract_border_cycle(mesh : SurfaceMesh, starting_point : int = None):
         vborder.append(point2)
         eborder.append(mesh.connectivity.edge_id(point1, point2))
         for v in mesh.connectivity.vertex_to_vertices(point2):
-            if mesh.is_vertex_on_border(v) and v!=point1:
+            if mesh.is_edge_on_border(point2, v) and v!=point1:
                 point1, point2 = point2, v
                 break
         nvisited += 1
